@@ -1,6 +1,7 @@
 (* C19/Properties.v — the property theorems, nothing else.  Each is closed by [exact lemma]
    and followed by Print Assumptions (captured into the evidence by the check driver). *)
-From Verif Require Import Common.Base C19.Model C19.Proofs1 C19.Proofs2 C19.Proofs3 C19.Proofs4 C19.Proofs5 C19.Proofs6 C19.Proofs7 C19.Proofs8 C19.Proofs9.
+From Verif Require Import Common.Base C19.Model C19.Proofs1 C19.Proofs2 C19.Proofs3 C19.Proofs4 C19.Proofs5 C19.Proofs6 C19.Proofs7 C19.Proofs8 C19.Proofs9 C19.Proofs10 C19.Translated.
+From Verif Require Generated.C19ExpHelper.
 Local Open Scope Z_scope.
 
 (* ---- receiver helper -------------------------------------------------------------------- *)
@@ -241,6 +242,37 @@ Theorem exporter_balance_wfr_refuted : exists o outs ops,
   lget (ExpFailed Logs) (s_led st) = 5 /\ lget (ExpEnqFailed Logs) (s_led st) = 5 /\ s_shut st = 0.
 Proof. exact wfr_refuted_l. Qed.
 
+(* over a whole history (any configuration, script, operations, then Shutdown) the item attributes
+   of the recorded export spans add up to exactly the sent / send_failed counters; nothing is recorded
+   when spans do not record *)
+Theorem exporter_span_sums_match : forall o outs ops, o_sig o <> Profiles ->
+  let l := s_led (run_exporter o outs ops) in
+  lget (SpanSent (o_sig o)) l = (if o_tracing o then lget (ExpSent (o_sig o)) l else 0) /\
+  lget (SpanFailed (o_sig o)) l = (if o_tracing o then lget (ExpFailed (o_sig o)) l else 0).
+Proof. exact (fun o outs ops H => run_exporter_SP o H outs ops). Qed.
+
+(* ---- translator obligations: hand-written pieces = what T1 generates from the current source ------ *)
+
+Theorem to_num_items_is_translated : forall n err,
+  to_num_items n err = Generated.C19ExpHelper.toNumItems n (negb err).
+Proof. exact to_num_items_is_generated. Qed.
+
+Theorem obs_end_op_is_translated : forall rc s n r, s <> Profiles ->
+  lget (ExpSent s) (obs_end_op rc s n r) = fst (Generated.C19ExpHelper.toNumItems n (eres_is_ok r)) /\
+  lget (ExpFailed s) (obs_end_op rc s n r) = snd (Generated.C19ExpHelper.toNumItems n (eres_is_ok r)).
+Proof. exact obs_end_op_is_generated. Qed.
+
+Theorem batch_validate_is_translated : forall ft mn mx,
+  Generated.C19ExpHelper.batch_config_validate false ft mn mx = None <-> batch_validate_ok ft mn mx = true.
+Proof. exact batch_validate_is_generated. Qed.
+
+(* the hypothesis valid_batch of the exporter theorems follows from BatchConfig.Validate as the code says now *)
+Theorem validated_batch_is_valid_batch : forall o,
+  (forall mn mx, batch_cfg o = Some (mn, mx) ->
+     exists ft, Generated.C19ExpHelper.batch_config_validate false ft mn mx = None) ->
+  valid_batch o.
+Proof. exact validated_batch_is_valid. Qed.
+
 (* ---- gauges ----------------------------------------------------------------------------------- *)
 
 (* MEMORY queue: at every operation boundary of every history (any batch / sizer / retry
@@ -267,8 +299,17 @@ Proof. exact mem_size_exact_burst_l. Qed.
    done, so the gauge under-counts by the size of the requests in flight at that moment until they
    are done (onDone clamps at 0).  Witness: 3 gated Sends, size field 2, outstanding 3 *)
 Theorem gauges_exact_persistent_refuted : exists o st,
-  o_sig o <> Profiles /\ is_storage o = true /\ Inv6 o st /\ s_qsize st = 2 /\ outstanding_size o st = 3.
+  o_sig o <> Profiles /\ is_storage o = true /\ Inv6 o True st /\ s_qsize st = 2 /\ outstanding_size o st = 3.
 Proof. exact persistent_size_undercounts_l. Qed.
+
+(* ... but it never OVER-counts: for every history of non-negative item counts, at every operation
+   boundary and at every burst reading, 0 <= size field <= summed size of accepted-not-done requests *)
+Theorem gauges_persistent_never_overcounts : forall o outs ops ns,
+  o_sig o <> Profiles -> Forall eop_nonneg ops -> Forall (fun n => 0 <= n) ns -> is_storage o = true ->
+  let st := fold_left (step o) ops (init_est outs) in
+  let st1 := fold_left (fun s n => let s' := offer o s n in pump_closed o (S (length (s_queue s'))) s') ns st in
+  0 <= s_qsize st <= outstanding_size o st /\ 0 <= s_qsize st1 <= outstanding_size o st1.
+Proof. exact persistent_size_bound_l. Qed.
 
 (* the size gauge reports the queue's size field at the moment of the reading, the capacity gauge
    the configured capacity (math.MaxInt for the queue built around a batcher alone); an accepted
@@ -312,4 +353,10 @@ Print Assumptions exporter_balance_wfr_refuted.
 Print Assumptions gauges_exact_memory.
 Print Assumptions gauges_exact_memory_burst.
 Print Assumptions gauges_exact_persistent_refuted.
+Print Assumptions gauges_persistent_never_overcounts.
+Print Assumptions exporter_span_sums_match.
+Print Assumptions to_num_items_is_translated.
+Print Assumptions obs_end_op_is_translated.
+Print Assumptions batch_validate_is_translated.
+Print Assumptions validated_batch_is_valid_batch.
 Print Assumptions gauges_exact_partial.
